@@ -109,6 +109,12 @@ func (p *Packet) decodeHead(data []byte) error {
 	p.DataType = DataType((data[15] >> 4) & 0x0F)
 	p.SubcontractType = SubcontractType(data[15] & 0x0F)
 
+	// a reused Packet must not keep the optional fields of the packet decoded before
+	p.customAttributes = customAttributes{}
+	p.Timestamp = 0
+	p.LastIFrameInterval = 0
+	p.LastFrameInterval = 0
+
 	end := 18
 	if p.DataType != DataTypePenetrate {
 		end += 8
